@@ -79,18 +79,20 @@ Section TopSrc.
   Theorem top_stmt_preserved n s ts env env' fuel st fl st1 locals V A vs :
     stop n s = true -> elab_stmt G env s = EOk (ts, env') -> tgood n ts -> fresh_decl gl args s ->
     exec M fuel s st = RefSem.ROk (fl, st1) -> Agree gl args env st locals V A vs ->
-    fl = ONormal /\
+    fl = ONormal /\ env' = env_step env s /\ (forall y, In y (locals_names st1) -> In y (decl_name s) \/ In y (locals_names st)) /\
     exists locals' V' A' vs', topexec structs gl args n cs locals ts V A vs = Some (locals', V', A', vs') /\ Agree gl args env' st1 locals' V' A' vs'.
   Proof.
     intros Hs He Hg Hfr Hex Hag. unfold stop in Hs. destruct (ssimple s) eqn:Ess.
     - destruct (simple_stmt_preserved M G structs gl args cs s ts env env' fuel st fl st1 locals V A vs Ess He (tgood_stok n ts Hg)) as (Hfl & Hsim & locals' & V' & A' & vs' & Ht & Hag'); auto.
       { intros te Hte. apply (Hg te). apply in_or_app. left. exact Hte. }
-      split; [exact Hfl|]. exists locals', V', A', vs'. unfold topexec. rewrite Hsim. split; assumption.
+      split; [exact Hfl|]. split; [apply (elab_stmt_env G env s ts env' Ess He)|]. split; [apply (simple_exec_names M s fuel st fl st1 Ess Hex)|]. exists locals', V', A', vs'. unfold topexec. rewrite Hsim. split; assumption.
     - cbn [orb] in Hs. pose proof (bsrc_nonsimple G n s ts env env' Ess Hs He) as Hns.
       assert (Hbg : bgood cs n ts) by (intros x Hx; apply Hg; apply in_or_app; right; exact Hx).
       destruct (bsrc_static G n s ts env env' Hs He (Agree_env_num gl args _ _ _ _ _ _ Hag) (bgood_nonan cs _ _ Hbg)) as [_ ->].
-      destruct (src_all M G structs gl args cs n s Hs ts env env fuel st fl st1 locals V A vs He Hbg Hex Hag) as (Hfl & _ & V' & A' & vs' & Hb & Hag').
-      split; [exact Hfl|]. exists locals, V', A', vs'. unfold topexec. rewrite Hns, Hb. split; [reflexivity|exact Hag'].
+      destruct (src_all M G structs gl args cs n s Hs ts env env fuel st fl st1 locals V A vs He Hbg Hex Hag) as (Hfl & Hsh & V' & A' & vs' & Hb & Hag').
+      split; [exact Hfl|]. split; [destruct n as [|n']; [discriminate|]; destruct s as [| e0 | | | | | | | |]; try discriminate; try reflexivity|].
+      split; [intros y Hy; right; unfold locals_names in *; rewrite !flat_map_concat_map in *; unfold shape in Hsh; rewrite <- Hsh; exact Hy|].
+      exists locals, V', A', vs'. unfold topexec. rewrite Hns, Hb. split; [reflexivity|exact Hag'].
   Qed.
 
   Theorem top_body_preserved n : forall l env e tl te fuel st fl st1 locals V A vs,
@@ -99,10 +101,11 @@ Section TopSrc.
     Forall (tgood n) tl -> tok te = true -> lit_ok cs te ->
     Forall (fresh_decl gl args) l ->
     exec_list M fuel (l ++ [SRet (Some e)]) st = RefSem.ROk (fl, st1) -> Agree gl args env st locals V A vs ->
-    exists locals' V' A' vs' v env1,
+    exists locals' V' A' vs' v,
       topexec_list structs gl args n cs locals tl V A vs = Some (locals', V', A', vs') /\
       teval structs gl args cs locals' (mkfr V' A') vs' te = Ok (v_of v) /\ fl = OReturn (SV v) /\
-      Agree gl args env1 st1 locals' V' A' vs'.
+      Agree gl args (env_after env l) st1 locals' V' A' vs' /\
+      (forall y, In y (locals_names st1) -> In y (flat_map decl_name l) \/ In y (locals_names st)).
   Proof.
     induction l as [|s r IH]; intros env e tl te fuel st fl st1 locals V A vs Hs Hp He Hlen Hg Hkt Hlt Hfr Hex Hag.
     - destruct tl; [|discriminate]. cbn [app] in *. cbn [elab_body elab_stmt elab_opt ebind] in He.
@@ -111,16 +114,20 @@ Section TopSrc.
       destruct (lit_teval structs gl args cs te locals (mkfr V A) vs Hlt) as [Hli Hlf].
       destruct (elab_pure_correct M G structs gl args cs locals (mkfr V A) vs env st Hag e te Hp Ee Hkt Hli Hlf) as (Hpt & Hsem).
       destruct (Hsem _ _ _ Hev) as (-> & v & -> & _ & Hv).
-      exists locals, V, A, vs, v, env. cbn [topexec_list]. split; [reflexivity|]. split; [exact Hv|]. split; [reflexivity|exact Hag].
+      exists locals, V, A, vs, v. cbn [topexec_list]. split; [reflexivity|]. split; [exact Hv|]. split; [reflexivity|]. split; [exact Hag|].
+      intros y Hy. right. apply (eval_pure_state M e fu _ _ _ Hp) in Hev. subst. exact Hy.
     - destruct tl as [|ts tl]; [discriminate|]. cbn [app] in *. cbn [elab_body] in He.
       destruct (elab_stmt G env s) as [[ts' env']| |] eqn:Es; cbn [ebind] in He; try discriminate.
       destruct (elab_body G env' (r ++ [SRet (Some e)])) as [tb'| |] eqn:Er; cbn [ebind] in He; try discriminate. inversion He; subst ts' tb'; clear He.
       cbn [forallb] in Hs. apply andb_prop in Hs as [Hs1 Hsr]. inversion Hg as [|? ? Hg1 Hgr]; subst. inversion Hfr as [|? ? Hf1 Hfr']; subst.
       destruct fuel as [|fu]; [discriminate|]. rewrite exec_list_cons in Hex.
       destruct (exec M fu s st) as [[fl1 st2]| | |] eqn:Ex; cbn [rbind] in Hex; try discriminate.
-      destruct (top_stmt_preserved n s ts env env' fu st fl1 st2 locals V A vs Hs1 Es Hg1 Hf1 Ex Hag) as (-> & locals1 & V1 & A1 & vs1 & Ht1 & Hag1).
-      destruct (IH env' e tl te fu st2 fl st1 locals1 V1 A1 vs1 Hsr Hp Er) as (locals' & V' & A' & vs' & v & env1 & Ht2 & Hv & Hfl & Henv); auto.
-      exists locals', V', A', vs', v, env1. cbn [topexec_list]. rewrite Ht1. split; [exact Ht2|]. split; [exact Hv|]. split; [exact Hfl|exact Henv].
+      destruct (top_stmt_preserved n s ts env env' fu st fl1 st2 locals V A vs Hs1 Es Hg1 Hf1 Ex Hag) as (-> & Henv' & Hnm1 & locals1 & V1 & A1 & vs1 & Ht1 & Hag1).
+      destruct (IH env' e tl te fu st2 fl st1 locals1 V1 A1 vs1 Hsr Hp Er) as (locals' & V' & A' & vs' & v & Ht2 & Hv & Hfl & Henv & Hnm); auto.
+      rewrite Henv' in Henv.
+      exists locals', V', A', vs', v. cbn [topexec_list]. rewrite Ht1. split; [exact Ht2|]. split; [exact Hv|]. split; [exact Hfl|]. split; [exact Henv|].
+      intros y Hy. cbn [flat_map]. destruct (Hnm y Hy) as [Hd|Hn]; [left; apply in_or_app; right; exact Hd|].
+      destruct (Hnm1 y Hn) as [Hd|Hn']; [left; apply in_or_app; left; exact Hd|right; exact Hn'].
   Qed.
 End TopSrc.
 
@@ -141,7 +148,8 @@ Theorem flow_function_simulation :
       forall fuel fl st', exec_list M fuel (f_body fn) (call_state fn ws g) = RefSem.ROk (fl, st') ->
         exists v vs', fl = OReturn (SV v) /\
           (exists N, forall fuel', N <= fuel' -> run fuel' P F 0 (call_frame ws (init_regs F)) vs = Done (v_of v) vs') /\
-          exists env1 locals' V' A', Agree (glnames M) (argnames fn) env1 st' locals' V' A' vs'.
+          (exists locals' V' A', Agree (glnames M) (argnames fn) (env_after (fenv M fn) l) st' locals' V' A' vs') /\
+          (forall y, In y (locals_names st') -> In y (flat_map decl_name l) \/ In y (locals_names (call_state fn ws g))).
 Proof.
   intros M fn n l e tf F Hbody Hs Hp Helab Hlower tl te Htb Hlen Hk Hlit Hnan Hfr P ws g vs Hargs Hdist Hglob fuel fl st' Hex.
   unfold elab_func in Helab. rewrite Hbody in Helab. fold (fenv M fn) in Helab.
@@ -156,12 +164,12 @@ Proof.
   assert (Hkall : forall x, In x (flat_map (topexprs n) tl ++ [te]) -> tok x = true) by (apply forallb_forall; exact Hk).
   rewrite Hbody in Hex.
   destruct (top_body_preserved M (genv_of M) (m_structs M) (glnames M) (argnames fn) (fn_consts F) n l (fenv M fn) e tl te fuel (call_state fn ws g) fl st' [] [] (map v_of ws) vs
-              Hs Hp Eb Hlen) as (locals' & V' & A' & vs' & v & env1 & Ht & Hv & Hfl & Hag1); auto.
+              Hs Hp Eb Hlen) as (locals' & V' & A' & vs' & v & Ht & Hv & Hfl & Hag1 & Hnm); auto.
   { apply Forall_forall. intros ts Hts x Hx. assert (Hin : In x (flat_map (topexprs n) tl ++ [te])) by (apply in_or_app; left; apply in_flat_map; exists ts; split; assumption).
     split; [apply Hkall; exact Hin|apply Hlits; exact Hin]. }
   { apply Hkall. apply in_or_app. right. left. reflexivity. }
   { apply Hlits. apply in_or_app. right. left. reflexivity. }
   exists v, vs'. split; [exact Hfl|]. split.
   - exact (flow_function_correct (m_structs M) (glnames M) tf n tl te F eq_refl Hsim Hpt Hlower P (map v_of ws) vs locals' V' A' vs' (v_of v) Ht Hv).
-  - exists env1, locals', V', A'. exact Hag1.
+  - split; [exists locals', V', A'; exact Hag1|exact Hnm].
 Qed.
